@@ -310,6 +310,8 @@ TEMPLATES = [
     ("array-field-of-call", ("Array", m(1), ("AccessField", m(2), "f")), [], [{1: [2], 2: [lambda: __import__("fmlref").Obj(None, {"f": 5}, {})]},
                                                                                {1: [0], 2: [lambda: __import__("fmlref").Obj(None, {"f": 5}, {})]}]),
     ("array-conditional", ("Array", m(1), ("Conditional", m(2), m(3), m(4))), [], [{1: [2], 2: [True, False]}, {1: [1], 2: [False]}]),
+    ("array-literal-size", ("Array", I(2), I("?v")), [], [{}]),
+    ("array-variable-size", ("Block", [("Array", get("n"), NULL), ("Array", get("n"), get("xs")), P(get("n"))]), [XS, var("n", I(2))], [{}]),
     ("array-of-arrays", ("Array", m(1), ("Array", m(2), m(3))), [], [{1: [2], 2: [1, 2]}, {1: [0], 2: [1]}]),
     ("conditional", ("Conditional", m(1), m(2), m(3)), [], [{1: [True]}, {1: [False]}, {1: [None]}, {1: [0]}]),
     ("conditional-no-else", ("Conditional", m(1), m(2), NULL), [], [{1: [True]}, {1: [False]}]),
@@ -359,6 +361,8 @@ TEMPLATES = [
     ("scope-loop-body", ("Block", [var("i", I(0)), ("Loop", mcall(get("i"), "<", I(2)), ("Block", [var("t", get("i")), assign("i", mcall(get("i"), "+", I(1))), P(get("t"))])), P(get("i"))]), [], [{}]),
     ("scope-conditional-branches", ("Block", [var("x", I("?a")), ("Conditional", m(1), ("Block", [var("x", I(1)), P(get("x"))]), ("Block", [var("y", I(2)), P(get("x"), get("y"))])), P(get("x"))]),
      [], [{1: [True]}, {1: [False]}]),
+    ("scope-method-in-block", ("Block", [var("g", I("?a")), var("o", ("Object", NULL, [("Function", "get", ["p"], ("Block", [P(get("g"), get("p")), assign("g", I("?b")), P(get("g"))]))])),
+                                         mcall(get("o"), "get", I(5)), P(get("g"))]), [var("g", I("?g"))], [{}]),
     ("scope-method-this", mcall(("Object", NULL, [var("v", I("?a")), ("Function", "get", ["v"], ("Block", [P(get("v")), ("AccessField", get("this"), "v")]))]), "get", I("?b")), [], [{}]),
 ]
 
@@ -458,6 +462,7 @@ def from_json(j):
 def replay(template, ast_json):
     """`check --replay`: compile the recorded AST with the real compiler and re-run the references on the result."""
     import fmlref
+    fmlref.COUNT_ALLOCATIONS = True
     ast = from_json(json.loads(ast_json))
     real, err = native_compile(ast)
     if real is None:
@@ -578,6 +583,7 @@ def check_template(k):
     returned is plain data)."""
     import fmlref
     bodies, enums, structs, which = SHARED["bodies"], SHARED["enums"], SHARED["structs"], SHARED["which"]
+    fmlref.COUNT_ALLOCATIONS = which in ("all", "C13", "C16")
     name, expr, prelude, choice_list = TEMPLATES[k]
     res = {"queries": 0, "discharged": 0, "violations": [], "inconclusive": [], "samples": [], "paths": 0, "solver_s": 0.0, "programs": 0,
            "reference_runs": 0, "native_agreements": 0}
@@ -633,7 +639,7 @@ def check_template(k):
             if which in ("all", "C02"):
                 findings += [("W", x) for x in fmlref.well_formed(shape)] + [("S", x) for x in fmlref.stack_discipline(shape)]
             concrete = substitute_model(program, model)
-            if which in ("all", "C13", "C12"):
+            if which in ("all", "C13", "C12", "C16"):
                 for choices in choice_list:
                     want, verdict = fmlref.eval_ast(ast, choices)
                     if verdict != "ok":
